@@ -1,3 +1,5 @@
 pub mod log;
 pub mod metrics;
 pub mod sync;
+#[cfg(jgilchrist_tcheran_verif)]
+pub mod verif;
